@@ -100,6 +100,14 @@ func parseEgressSocks5Request(data []byte) (*model.Request, error) {
 }
 
 func (s *Server) rejectPrivateAndLoopbackIPAction(_ context.Context, in egress.Input, req *model.Request) egress.Action {
+	if req.Command == constant.Socks5UDPAssociateCmd && req.DstAddr.FQDN == "" && (len(req.DstAddr.IP) == 0 || req.DstAddr.IP.IsUnspecified()) {
+		// The address in a UDP associate request is where the client sends
+		// UDP packets from. It is usually all zeros and it is never dialed.
+		// The destination of each relayed UDP packet is checked separately.
+		return egress.Action{
+			Action: appctlpb.EgressAction_DIRECT,
+		}
+	}
 	if s.isDestinationAllowed(req.DstAddr, in.Env["user"]) {
 		return egress.Action{
 			Action: appctlpb.EgressAction_DIRECT,
